@@ -12,6 +12,7 @@ import itertools
 from fractions import Fraction
 
 import z3
+import os
 
 from pyvc.api import Contract, NDArr, Obj, conj, farr, iarr, real_matrix, reals, source
 from pyvc.libmodels import ufun
@@ -260,122 +261,128 @@ def supercell_obligations(ctx, env, fname, size):
             new = I2.call(I2.getattr(cr, fname), [] if fname == "as_P1" else [size])
             return new
         res = env.I.explore(thunk, pre=PRE + INV)
-        if len(res) != 1 or res[0].kind != "return" or not isinstance(res[0].value, Obj):
+        if os.environ.get("PYVC_DEBUG") and (len(res) != 1 or res[0].kind != "return"):
+            print("C13DBG", fname, size, len(res), [(r_.kind, getattr(r_.value, "exc_type", None), getattr(r_.value, "msg", None)) for r_ in res][:4])
+        if not res or any(r_.kind != "return" or not isinstance(r_.value, Obj) for r_ in res):     # (several returning paths are fine: each is checked)
             ctx.prove(lab + "returns", [], z3.BoolVal(False), clause=f"{fname}({size}) returns a crystal on every valid input", replay=replay_rows, fn=f_src)
             return
-        r = res[0]
-        new, H = r.value, r.pc
-        au, sc, sgp = new.fields.get("asymmetric_unit"), new.fields.get("unit_cell"), new.fields.get("space_group")
-        # ---- space group P1, cell lengths and angles ---------------------------------------------------------------
-        ok_sg = isinstance(sgp, Obj) and sgp.fields.get("international_tables_number") == 1 and sgp.fields.get("choice") in ("", None)
-        ctx.prove(lab + "space_group_P1", [], z3.BoolVal(bool(ok_sg)), clause="the result is in space group number 1", replay=replay_rows, fn=f_src)
-        if not (isinstance(au, Obj) and isinstance(sc, Obj) and isinstance(au.fields.get("positions"), NDArr)):
-            ctx.prove(lab + "shape", [], z3.BoolVal(False), clause="the result has a unit cell and an asymmetric unit with an (N, 3) position array", replay=replay_rows, fn=f_src)
-            return
-        scL, scA = list(_flat(sc.fields["lengths"])), list(_flat(sc.fields["angles"]))
-        ienv = standard_instance_env(env)
-        sfacts = standard_instance_facts()
-        prove_i(ctx, lab + "cell_parameters", H, conj([z(to_real(scL[i])) == size[i] * LEN[i] for i in range(3)] + [z(to_real(scA[i])) == [al, be, ga][i] for i in range(3)]),
-                ienv_angles(ienv), sfacts + angle_facts(), clause="new cell: lengths == (u a, v b, w c), angles unchanged (the metric of the sub-lattice diag(u,v,w).D)", replay=replay_rows, fn=f_src)
-        P, Z = au.fields["positions"].data, au.fields["atomic_numbers"].data
-        cells = list(itertools.product(range(size[0]), range(size[1]), range(size[2])))
-        n_uc = sum(MOL_SIZES)
-        n_expected = len(cells) * n_uc
-        ctx.prove(lab + "count", [], z3.BoolVal(P.shape == (n_expected, 3) and Z.shape == (n_expected,)),
-                  clause=f"atom count == u v w n_uc == {len(cells)} x {n_uc} (cell-volume ratio x unit-cell contents), positions and atomic numbers stacked to the same length",
-                  replay=replay_rows, fn=f_src)
-        if P.shape != (n_expected, 3) or Z.shape != (n_expected,):
-            return
-        # which atom and which cell each row describes: the atom is read off the row's atomic number (a distinct symbol per atom of the symbolic unit cell), the integer
-        # cell offset from an exact evaluation on a rational instance (it is then PROVED for all inputs in `rows`); any order of enumeration is accepted
-        zname = {str(env.mol_z[j][i]): (j, i) for j in range(len(MOL_SIZES)) for i in range(MOL_SIZES[j])}
-        expected, ident_ok = [], True
-        canon = [(n, j, i) for n in cells for j in range(len(MOL_SIZES)) for i in range(MOL_SIZES[j])]
-        for k in range(n_expected):
-            ji = zname.get(str(Z[k])) if z3.is_expr(Z[k]) else None
-            if ji is None:
-                ident_ok = False
-                expected.append(canon[k])
-                continue
-            j, i = ji
-            try:
-                vals = [eval_rat(z(to_real(P[k, x])), ienv) * size[x] - sum(ienv[f"m{j}p{i}{m}"] * ienv[f"V{m}{x}"] for m in range(3)) for x in range(3)]
-                n = tuple(int(v) for v in vals) if all(Fraction(v).denominator == 1 for v in vals) else canon[k][0]
-            except (ValueError, ZeroDivisionError):
-                n = canon[k][0]
-            expected.append((n, j, i))
-        seen = {}
-        for (n, j, i) in expected:
-            key = (j, i) + tuple(n[x] % size[x] for x in range(3))
-            seen[key] = seen.get(key, 0) + 1
-        complete = ident_ok and len(seen) == n_expected and all(v == 1 for v in seen.values())
-        ctx.prove(lab + "enumeration", [], z3.BoolVal(bool(complete)), clause="every atom of the unit cell appears once for every residue (q,r,s) modulo (u,v,w): the rows are a bijection onto "
-                  "(atoms of the unit cell) x (cells of the supercell); every row carries the atomic number of one of the unit-cell atoms", replay=replay_rows, fn=f_src)
-        if not complete:
-            return          # the rows are not a re-expression of the unit-cell contents: nothing further to state about them
-        # ---- cut: abstract the supercell's inverse matrix entries -----------------------------------------------------
-        Sinv, S = sc.fields["inverse"].data, sc.fields["direct"].data
-        W = real_matrix("W", 3, 3)
-        subs = []
-        for j in range(3):
-            for i in range(3):
-                t = z(to_real(Sinv[j, i]))
-                if not (z3.is_rational_value(t) or z3.is_int_value(t)):
-                    subs.append((t, W[j][i]))
-        lemma_terms = [z(to_real(Sinv[j, i])) * size[i] == V[j][i] for j in range(3) for i in range(3)]
-        lemma_abs = [z3.substitute(g, *subs) if subs else g for g in lemma_terms]
-        goals = []
-        for k, (n, j, i) in enumerate(expected):
-            p = env.mol_pos[j][i]
-            goals.append(z(Z[k]) == env.mol_z[j][i] if z3.is_expr(Z[k]) else z3.BoolVal(False))
-            for x in range(3):
-                g = z(to_real(P[k, x])) * size[x] - n[x] == sum(p[m] * V[m][x] for m in range(3))
-                goals.append(z3.substitute(g, *subs) if subs else g)
-        wnames = {f"W{j}{i}" for j in range(3) for i in range(3)}
-        uses_W = any(mentions(g, wnames) for g in goals)
-        hy_rows = INV + (lemma_abs if uses_W else [])
-        wenv = dict(ienv)
-        for j in range(3):
-            for i in range(3):
+        def per_path(r, lab):
+            new, H = r.value, r.pc
+            au, sc, sgp = new.fields.get("asymmetric_unit"), new.fields.get("unit_cell"), new.fields.get("space_group")
+            # ---- space group P1, cell lengths and angles ---------------------------------------------------------------
+            ok_sg = isinstance(sgp, Obj) and sgp.fields.get("international_tables_number") == 1 and sgp.fields.get("choice") in ("", None)
+            ctx.prove(lab + "space_group_P1", [], z3.BoolVal(bool(ok_sg)), clause="the result is in space group number 1", replay=replay_rows, fn=f_src)
+            if not (isinstance(au, Obj) and isinstance(sc, Obj) and isinstance(au.fields.get("positions"), NDArr)):
+                ctx.prove(lab + "shape", [], z3.BoolVal(False), clause="the result has a unit cell and an asymmetric unit with an (N, 3) position array", replay=replay_rows, fn=f_src)
+                return
+            scL, scA = list(_flat(sc.fields["lengths"])), list(_flat(sc.fields["angles"]))
+            ienv = standard_instance_env(env)
+            sfacts = standard_instance_facts()
+            prove_i(ctx, lab + "cell_parameters", H, conj([z(to_real(scL[i])) == size[i] * LEN[i] for i in range(3)] + [z(to_real(scA[i])) == [al, be, ga][i] for i in range(3)]),
+                    ienv_angles(ienv), sfacts + angle_facts(), clause="new cell: lengths == (u a, v b, w c), angles unchanged (the metric of the sub-lattice diag(u,v,w).D)", replay=replay_rows, fn=f_src)
+            P, Z = au.fields["positions"].data, au.fields["atomic_numbers"].data
+            cells = list(itertools.product(range(size[0]), range(size[1]), range(size[2])))
+            n_uc = sum(MOL_SIZES)
+            n_expected = len(cells) * n_uc
+            ctx.prove(lab + "count", [], z3.BoolVal(P.shape == (n_expected, 3) and Z.shape == (n_expected,)),
+                      clause=f"atom count == u v w n_uc == {len(cells)} x {n_uc} (cell-volume ratio x unit-cell contents), positions and atomic numbers stacked to the same length",
+                      replay=replay_rows, fn=f_src)
+            if P.shape != (n_expected, 3) or Z.shape != (n_expected,):
+                return
+            # which atom and which cell each row describes: the atom is read off the row's atomic number (a distinct symbol per atom of the symbolic unit cell), the integer
+            # cell offset from an exact evaluation on a rational instance (it is then PROVED for all inputs in `rows`); any order of enumeration is accepted
+            zname = {str(env.mol_z[j][i]): (j, i) for j in range(len(MOL_SIZES)) for i in range(MOL_SIZES[j])}
+            expected, ident_ok = [], True
+            canon = [(n, j, i) for n in cells for j in range(len(MOL_SIZES)) for i in range(MOL_SIZES[j])]
+            for k in range(n_expected):
+                ji = zname.get(str(Z[k])) if z3.is_expr(Z[k]) else None
+                if ji is None:
+                    ident_ok = False
+                    expected.append(canon[k])
+                    continue
+                j, i = ji
                 try:
-                    wenv[f"W{j}{i}"] = eval_rat(z(to_real(Sinv[j, i])), ienv)
+                    vals = [eval_rat(z(to_real(P[k, x])), ienv) * size[x] - sum(ienv[f"m{j}p{i}{m}"] * ienv[f"V{m}{x}"] for m in range(3)) for x in range(3)]
+                    n = tuple(int(v) for v in vals) if all(Fraction(v).denominator == 1 for v in vals) else canon[k][0]
                 except (ValueError, ZeroDivisionError):
-                    pass
-        prove_i(ctx, lab + "rows", hy_rows, conj(goals), wenv, sfacts, clause="row k: atomic number == that of (molecule j, atom i) and new_frac . diag(size) - (q,r,s) == p_(j,i) . V (the old fractional "
-                  "position) for the integer offset (q,r,s) and atom (j,i) identified in `enumeration`" +
-                  ("; hypothesis: new inverse . diag(size) == V (lemma cell/standard, any_cell_orientation)" if uses_W else "; no hypothesis on the new cell's inverse needed"),
-                replay=replay_rows, fn=f_src)
-        # ---- the lemma for cells in standard orientation ---------------------------------------------------------------
-        DA, VA, Hstd = env.standard_cell_terms()
-        std_sub = [(D[i][j], z(to_real(DA[i, j]))) for i in range(3) for j in range(3)] + [(V[i][j], z(to_real(VA[i, j]))) for i in range(3) for j in range(3)]
-        Hs = list(Hstd) + [h for h in H if not any(h.eq(q) for q in INV)]
-        cell_goals = [z3.substitute(g, *std_sub) for g in lemma_terms] + \
-                     [z3.substitute(z(to_real(S[i, j])) == size[i] * D[i][j], *std_sub) for i in range(3) for j in range(3)]
-        prove_i(ctx, lab + "cell/standard", Hs, conj(cell_goals), ienv, sfacts[:9], algebra=True, clause="cell in standard orientation (a along x, b in the xy plane — what "
-                "from_lengths_and_angles / CIF / SHELX input gives): new inverse . diag(size) == inverse and new direct == diag(size) . direct", replay=replay_rows, fn=f_src)
-        # ---- any orientation ---------------------------------------------------------------------------------------------
-        ident = lab + "any_cell_orientation"
-        clause_any = ("cell given by arbitrary lattice vectors (UnitCell(vectors): VASP/xtb/reduced cells, or after choose_trigonal_lattice), lengths/angles = row norms/angles: "
-                      "new inverse . diag(size) == inverse, i.e. the new fractional coordinates still describe the same arrangement")
-        if not uses_W:
-            ctx.ground(ident, True, tag="F", clause="the new fractional coordinates do not depend on the new cell's inverse matrix: `rows` holds for every non-singular cell", fn=f_src)
-        else:
-            Hg = list(H) + METRIC
-            # 1. cheap counter-model search on the rational instance (a false statement makes the certificate search run away)
-            inst = Hg + instance_facts()
-            s = z3.Solver()
-            s.set("timeout", 10000)
-            for h in inst:
-                s.add(z(h))
-            s.add(z3.Not(conj(lemma_terms)))
-            verdict = s.check()
-            if verdict == z3.sat:
-                ctx.prove(ident, inst, conj(lemma_terms), clause=clause_any + "  [counter-model searched on the rational instance: orthorhombic cell (5, 10, 7) rotated by the "
-                          "3-4-5 angle about z]", replay=replay_any, fn=f_src, split=False)
+                    n = canon[k][0]
+                expected.append((n, j, i))
+            seen = {}
+            for (n, j, i) in expected:
+                key = (j, i) + tuple(n[x] % size[x] for x in range(3))
+                seen[key] = seen.get(key, 0) + 1
+            complete = ident_ok and len(seen) == n_expected and all(v == 1 for v in seen.values())
+            ctx.prove(lab + "enumeration", [], z3.BoolVal(bool(complete)), clause="every atom of the unit cell appears once for every residue (q,r,s) modulo (u,v,w): the rows are a bijection onto "
+                      "(atoms of the unit cell) x (cells of the supercell); every row carries the atomic number of one of the unit-cell atoms", replay=replay_rows, fn=f_src)
+            if not complete:
+                return          # the rows are not a re-expression of the unit-cell contents: nothing further to state about them
+            # ---- cut: abstract the supercell's inverse matrix entries -----------------------------------------------------
+            Sinv, S = sc.fields["inverse"].data, sc.fields["direct"].data
+            W = real_matrix("W", 3, 3)
+            subs = []
+            for j in range(3):
+                for i in range(3):
+                    t = z(to_real(Sinv[j, i]))
+                    if not (z3.is_rational_value(t) or z3.is_int_value(t)):
+                        subs.append((t, W[j][i]))
+            lemma_terms = [z(to_real(Sinv[j, i])) * size[i] == V[j][i] for j in range(3) for i in range(3)]
+            lemma_abs = [z3.substitute(g, *subs) if subs else g for g in lemma_terms]
+            goals = []
+            for k, (n, j, i) in enumerate(expected):
+                p = env.mol_pos[j][i]
+                goals.append(z(Z[k]) == env.mol_z[j][i] if z3.is_expr(Z[k]) else z3.BoolVal(False))
+                for x in range(3):
+                    g = z(to_real(P[k, x])) * size[x] - n[x] == sum(p[m] * V[m][x] for m in range(3))
+                    goals.append(z3.substitute(g, *subs) if subs else g)
+            wnames = {f"W{j}{i}" for j in range(3) for i in range(3)}
+            uses_W = any(mentions(g, wnames) for g in goals)
+            hy_rows = INV + (lemma_abs if uses_W else [])
+            wenv = dict(ienv)
+            for j in range(3):
+                for i in range(3):
+                    try:
+                        wenv[f"W{j}{i}"] = eval_rat(z(to_real(Sinv[j, i])), ienv)
+                    except (ValueError, ZeroDivisionError):
+                        pass
+            prove_i(ctx, lab + "rows", hy_rows, conj(goals), wenv, sfacts, clause="row k: atomic number == that of (molecule j, atom i) and new_frac . diag(size) - (q,r,s) == p_(j,i) . V (the old fractional "
+                      "position) for the integer offset (q,r,s) and atom (j,i) identified in `enumeration`" +
+                      ("; hypothesis: new inverse . diag(size) == V (lemma cell/standard, any_cell_orientation)" if uses_W else "; no hypothesis on the new cell's inverse needed"),
+                    replay=replay_rows, fn=f_src)
+            # ---- the lemma for cells in standard orientation ---------------------------------------------------------------
+            DA, VA, Hstd = env.standard_cell_terms()
+            std_sub = [(D[i][j], z(to_real(DA[i, j]))) for i in range(3) for j in range(3)] + [(V[i][j], z(to_real(VA[i, j]))) for i in range(3) for j in range(3)]
+            Hs = list(Hstd) + [h for h in H if not any(h.eq(q) for q in INV)]
+            cell_goals = [z3.substitute(g, *std_sub) for g in lemma_terms] + \
+                         [z3.substitute(z(to_real(S[i, j])) == size[i] * D[i][j], *std_sub) for i in range(3) for j in range(3)]
+            prove_i(ctx, lab + "cell/standard", Hs, conj(cell_goals), ienv, sfacts[:9], algebra=True, clause="cell in standard orientation (a along x, b in the xy plane — what "
+                    "from_lengths_and_angles / CIF / SHELX input gives): new inverse . diag(size) == inverse and new direct == diag(size) . direct", replay=replay_rows, fn=f_src)
+            # ---- any orientation ---------------------------------------------------------------------------------------------
+            ident = lab + "any_cell_orientation"
+            clause_any = ("cell given by arbitrary lattice vectors (UnitCell(vectors): VASP/xtb/reduced cells, or after choose_trigonal_lattice), lengths/angles = row norms/angles: "
+                          "new inverse . diag(size) == inverse, i.e. the new fractional coordinates still describe the same arrangement")
+            if not uses_W:
+                ctx.ground(ident, True, tag="F", clause="the new fractional coordinates do not depend on the new cell's inverse matrix: `rows` holds for every non-singular cell", fn=f_src)
             else:
-                # 2. the general statement: certificate first, SMT with a short budget otherwise (never reported as proved from the instance alone)
-                prove_alg(ctx, ident, Hg, conj(lemma_terms), clause=clause_any, replay=replay_any, fn=f_src, **SMT)
-        ctx.safety(f"crystal.Crystal.{fname}/{stag}", res, fn=f_src)
+                Hg = list(H) + METRIC
+                # 1. cheap counter-model search on the rational instance (a false statement makes the certificate search run away)
+                inst = Hg + instance_facts()
+                s = z3.Solver()
+                s.set("timeout", 10000)
+                for h in inst:
+                    s.add(z(h))
+                s.add(z3.Not(conj(lemma_terms)))
+                verdict = s.check()
+                if verdict == z3.sat:
+                    ctx.prove(ident, inst, conj(lemma_terms), clause=clause_any + "  [counter-model searched on the rational instance: orthorhombic cell (5, 10, 7) rotated by the "
+                              "3-4-5 angle about z]", replay=replay_any, fn=f_src, split=False)
+                else:
+                    # 2. the general statement: certificate first, SMT with a short budget otherwise (never reported as proved from the instance alone)
+                    prove_alg(ctx, ident, Hg, conj(lemma_terms), clause=clause_any, replay=replay_any, fn=f_src, **SMT)
+            ctx.safety(f"crystal.Crystal.{fname}/{stag}", res, fn=f_src)
+
+        rets = [r_ for r_ in res if r_.kind == "return" and isinstance(r_.value, Obj)]
+        for k_, r_ in enumerate(rets):
+            per_path(r_, lab if len(rets) == 1 else lab + f"path{k_}/")
     ctx.attempt(lab + "rows", ob, replay=replay_rows, fn=f_src)
 
 
